@@ -68,6 +68,32 @@ func vfC07Oracle(in *vfGWInst, evFull string, pre, post *vfSnap) {
 			in.bad("c07:fanout-for-joined", "fanout state exists for joined topic %s", t)
 		}
 	}
+	// ---- GRAFTs / PRUNEs still owed from earlier steps (they could not be written then: full queue, blocked write):
+	// until they reach the wire they have to be somewhere -- the retry buffer, the queue, a blocked write
+	for _, k := range vfSortedKeys(in.state) {
+		if !strings.HasPrefix(k, "owe:") {
+			continue
+		}
+		kf := strings.Split(k, ":") // owe:KIND:peer:topic
+		kind, p, t := kf[1], kf[2], kf[3]
+		_, conn := post.Peers[p]
+		inMesh := post.Mesh[t][p]
+		onWire := false
+		for _, r := range g.sentTo(p) {
+			if (kind == "GRAFT" && vfHasGraft(r, t)) || (kind == "PRUNE" && vfGetPrune(r, t) != nil) {
+				onWire = true
+			}
+		}
+		switch {
+		case onWire, !conn, !g.conn[p], kind == "GRAFT" && !inMesh, kind == "PRUNE" && inMesh:
+			delete(in.state, k) // delivered, moot (the peer is gone) or superseded
+		case strings.Contains(post.Control[p], kind+"["+t), g.gated[p], post.QueueLen[p] > 0, !g.fakes[p].outAlive():
+			in.count("owed_control_still_in_flight")
+		default:
+			in.bad("c07:owed-"+strings.ToLower(kind)+"-lost", "the %s for %s owed to %s since an earlier step is neither on the wire nor waiting anywhere (retry buffer %q, queue length %d)", kind, t, p, post.Control[p], post.QueueLen[p])
+			delete(in.state, k)
+		}
+	}
 	// ---- additions / removals
 	topics := map[string]bool{}
 	for t := range pre.Mesh {
@@ -100,6 +126,9 @@ func vfC07Oracle(in *vfGWInst, evFull string, pre, post *vfSnap) {
 						sent = true
 					}
 				}
+				if !sent {
+					in.state["owe:GRAFT:"+p+":"+t] = "1"
+				}
 				if !sent && strings.Contains(post.Control[p], "GRAFT["+t) {
 					sent = true
 					in.count("graft_pending_retry")
@@ -122,6 +151,9 @@ func vfC07Oracle(in *vfGWInst, evFull string, pre, post *vfSnap) {
 				if vfGetPrune(r, t) != nil {
 					sent = true
 				}
+			}
+			if !sent {
+				in.state["owe:PRUNE:"+p+":"+t] = "1"
 			}
 			if !sent && strings.Contains(post.Control[p], "PRUNE["+t) {
 				sent = true
@@ -307,6 +339,13 @@ func vfC07Scenarios(thorough bool) []*vfGWScenario {
 		p8 := []vfPeerCfg{{Name: "a", Proto: "v11", IP: "10.0.0.1"}, {Name: "b", Proto: "v11", IP: "10.0.0.2"}, {Name: "c", Proto: "v12", IP: "10.0.0.3"}, {Name: "d", Proto: "v11", IP: "10.0.0.4"},
 			{Name: "e", Proto: "v11", IP: "10.0.0.5"}, {Name: "f", Proto: "v12", IP: "10.0.0.6", Outbound: true}, {Name: "g", Proto: "v11", IP: "10.0.0.7", Outbound: true}, {Name: "h", Proto: "v11", IP: "10.0.0.8", Outbound: true}}
 		mk("over-dout2", "d5out2", p8, graftAll(p8), []string{"hb", "score:a:2", "score:f:1", "score:g:-1", "prune:h:t", "graft:h:t", "adv:5000"}, d)
+	}
+	// S2c: GRAFTs and PRUNEs that cannot be queued (a one-slot queue behind a blocked write) and are retried: they
+	// stay owed until they reach the wire
+	{
+		p3 := []vfPeerCfg{{Name: "a", Proto: "v11", IP: "10.0.0.1"}, {Name: "b", Proto: "v12", IP: "10.0.0.2"}, {Name: "c", Proto: "v11", IP: "10.0.0.3"}}
+		mk("retry", "d2", p3, connAll(p3, true), []string{"gate:a", "ungate:a", "join:t", "leave:t", "hb", "graft:b:t", "prune:b:t", "score:a:-1", "score:a:0", "adv:2100"}, d+1)
+		out[len(out)-1].Cfg.QueueSize = 1
 	}
 	// S3a: a heartbeat that cuts an over-subscribed mesh AND grafts opportunistically (every tick), from a state
 	// without any backoff entry for the topic; distinct scores below the opportunistic threshold, so that which
